@@ -29,7 +29,7 @@ RULE = ("plans = seed x network x bip32/49/84 variant x derivation histories on 
 FAULT_KINDS = ["db_statement_error", "db_crash_before_commit", "db_commit_error", "secrets_cleared"]
 PROBES = ["warm_cache_rederive", "cache_key_other_as_private", "hardened_from_public_refused", "index>=2^24", "index=2^31-1",
           "depth>=5", "wire_roundtrip_private", "wire_roundtrip_public", "range_expansion", "children_iter", "fresh_rebuild",
-          "electrum_commutation", "keychain_lookup_resolved", "keychain_lookup_absent_after_crash", "variant_bip49",
+          "electrum_commutation", "electrum_buffer_reused", "keychain_lookup_resolved", "keychain_lookup_absent_after_crash", "variant_bip49",
           "variant_bip84", "network_non_btc", "known_version_bytes"]
 
 _NETS = None
@@ -234,7 +234,7 @@ def gen_plan(rng, tier, index, config=None):
             else:
                 steps.append({"op": "kc_lookup", "pick": r.between(0, 1000), "compressed": r.chance(0.8)})
         elif op == "electrum":
-            steps.append({"op": "electrum", "k": r.between(1, mec.SECP256K1.n - 1),
+            steps.append({"op": "electrum", "mpk_buffer": r.pick([None, "bytes", "bytearray_reused"]), "k": r.between(1, mec.SECP256K1.n - 1),
                           "paths": [[r.between(0, 1000), r.pick([0, 1, None])] for _ in range(r.between(1, 3))]})
     return {"world": NAME, "config": {"name": "%s-%s" % (net, variant), "network": net, "variant": variant}, "steps": steps}
 
@@ -827,6 +827,23 @@ def _op_electrum(ctx, W, st):
         return
     K = Cv.mul(k, Cv.G)
     mpk = K[0].to_bytes(32, "big") + K[1].to_bytes(32, "big")
+    # a third, watch-only wallet built from the 64-byte master public key as it came off the wire: out of bytes, or out of
+    # a read buffer that the caller reuses (overwrites) once the wallet exists
+    watch = None
+    buf = st.get("mpk_buffer")
+    if buf:
+        try:
+            if buf == "bytearray_reused":
+                ba = bytearray(mpk)
+                watch = W.net.keys.electrum_public(master_public_key=ba)
+                for i_ in range(len(ba)):
+                    ba[i_] = 0xEE
+                ctx.probe("electrum_buffer_reused")
+            else:
+                watch = W.net.keys.electrum_public(master_public_key=mpk)
+        except Exception as e:
+            ctx.violate("C09", "electrum-raised", {"exc": type(e).__name__, "msg": str(e)[:160], "when": "electrum_public"})
+            return
     for n, c in st["paths"]:
         path = "%d" % n if c is None else "%d/%d" % (n, c)
         b = ("%d:%d:" % (n, 0 if c is None else c)).encode() + mpk
@@ -838,6 +855,13 @@ def _op_electrum(ctx, W, st):
             a = prv.subkey(path)
             bb = pub.subkey_for_path(path)
             got = (a.secret_exponent(), tuple(a.public_pair()), bb.secret_exponent(), tuple(bb.public_pair()))
+            if watch is not None:
+                cc = watch.subkey(path)
+                if (cc.secret_exponent(), tuple(cc.public_pair())) != (None, eK) and not (ek == 0 or eK is None):
+                    ctx.violate("C09", "electrum-commutation", {"path": path, "wallet": "watch-only, from the 64-byte master public key",
+                                                                "buffer": st.get("mpk_buffer"), "got": list(cc.public_pair()), "expected": list(eK)})
+                if bytes(watch.master_public_key()) != mpk:
+                    ctx.violate("C09", "electrum-master-public-key-changed", {"buffer": st.get("mpk_buffer")})
         except Exception as e:
             ctx.violate("C09", "electrum-raised", {"path": path, "exc": type(e).__name__, "msg": str(e)[:160]})
             continue
